@@ -18,7 +18,7 @@ RULE = ("each case: 1-8 servers, each with an announcement (explicit permutation
         "currently valid certificate is never sent an immutable allocation and never gains a share number it did not hold. Non-trivial = >=3 servers with a preferred one, or keys configured with both permitted and excluded servers; distinct by whole case.")
 LEVEL_TEXT = "Differential search against a reference ordering and the certificate ground truth."
 ASSUMPTIONS = ["servers are created by StorageFarmBroker._make_storage_server from their announcement (Foolscap, or HTTP when the announcement carries NURLs and force_foolscap is off) and marked connected by the harness (no network)", "the broker's certificate clock (grid_manager.current_datetime_with_zone) is replaced by the harness clock"]
-REQUIRED_CLASSES = ["preferred", "seed-from-key", "seed-explicit", "upload-filtered", "upload-all-permitted", "cert-expires-between-clock-values", "http-server", "foolscap-server", "grid-mixed-permitted", "publish-with-shares-on-server-whose-certificate-lapsed", "share-placed-on-permitted-server"]
+REQUIRED_CLASSES = ["preferred-from-tahoe-cfg", "preferred", "seed-from-key", "seed-explicit", "upload-filtered", "upload-all-permitted", "cert-expires-between-clock-values", "http-server", "foolscap-server", "grid-mixed-permitted", "publish-with-shares-on-server-whose-certificate-lapsed", "share-placed-on-permitted-server"]
 BUDGET = {"quick": 600, "thorough": 3600}
 
 
@@ -142,7 +142,7 @@ def cases(draw):
             if draw(st.integers(0, 2)) > 0:
                 c["server"] = i % 4
         servers.append({"explicit_seed": draw(st.booleans()), "certs": certs, "http": draw(st.integers(0, 2)) == 0})
-    return {"servers": servers, "preferred": draw(st.lists(st.integers(0, ns - 1), max_size=3, unique=True)), "configured": draw(st.lists(st.integers(0, 3), max_size=2, unique=True)),
+    return {"servers": servers, "preferred": draw(st.lists(st.integers(0, ns - 1), max_size=3, unique=True)), "via_config": draw(st.booleans()), "configured": draw(st.lists(st.integers(0, 3), max_size=2, unique=True)),
             "order2": draw(st.permutations(list(range(ns)))), "force_foolscap": draw(st.integers(0, 3)) == 0, "sis": draw(st.lists(st.integers(0, 10 ** 6), min_size=1, max_size=3)),
             "times": draw(st.lists(st.integers(-101, 101) | st.sampled_from([0, 1, -1]), min_size=1, max_size=3))}
 
@@ -191,8 +191,18 @@ def run_case(case, ctx):
         keys = [gm.keypair(i)[1] for i in case["configured"]]
 
         def broker(order):
-            cfg = config_from_string("/nonexistent-verif", "client.port", "[client]\nforce_foolscap = true\n" if case.get("force_foolscap") else "", _valid_config=client._valid_config())
-            b = StorageFarmBroker(True, None, cfg, StorageClientConfig(preferred_peers=preferred, grid_manager_keys=keys))
+            text = "[client]\n" + ("force_foolscap = true\n" if case.get("force_foolscap") else "")
+            if case.get("via_config") and preferred:
+                # the preferred list reaches the client the way an operator sets it: `peers.preferred` in tahoe.cfg
+                text += "peers.preferred = " + " , ".join(str(x, "ascii") for x in preferred) + "\n"
+            cfg = config_from_string("/nonexistent-verif", "client.port", text, _valid_config=client._valid_config())
+            if case.get("via_config") and preferred:
+                import attr
+                scc = attr.evolve(StorageClientConfig.from_node_config(cfg), grid_manager_keys=keys)
+                classes.add("preferred-from-tahoe-cfg")
+            else:
+                scc = StorageClientConfig(preferred_peers=preferred, grid_manager_keys=keys)
+            b = StorageFarmBroker(True, None, cfg, scc)
             for i in order:
                 srv = gm.add_connected(b, sid[i], anns[i])
                 classes.add("http-server" if isinstance(srv, HTTPNativeStorageServer) else "foolscap-server")
